@@ -176,7 +176,33 @@ def run(F, chk):
                                                        "add_tree_rule", "remove_tree_rule", "add_pre_rule", "add_post_rule",
                                                        "remove_pre_rule", "remove_post_rule", "set_tags")]
         targets += ms
-    rb.require(len(targets) >= 8, "only %d worker-side appliers found" % len(targets))
+    # ... plus every fallible `&mut self` method of the worker that a command can reach: the call graph below
+    # Server::notify (the four proxies' notify, their per-verb handlers, listeners, routers, answer tables, ...).
+    # Not configuration: the metrics drain, and the stop verbs (they tear the proxy down; a partial stop is reported by
+    # R-C08-a / finding F12, and `leaves the configuration as it was` does not apply to a stopping worker).
+    roots = [q for q in F.paths() if q == "sozu_lib::server::Server::notify" or
+             (q.endswith("::notify") and ("ProxyConfiguration>" in q or q.startswith("sozu_lib::udp::UdpProxy")))]
+    rb.require(len(roots) >= 5, "worker dispatch roots not found: %s" % roots)
+    seen, work = set(roots), list(roots)
+    while work:
+        q = work.pop()
+        for fq in F.family(q):
+            for _, t in F.body(fq).calls():
+                for c in (t.get("res"), t.get("fn")):
+                    if c and c not in seen and F.has(c) and c.startswith(("sozu_lib::", "<sozu_lib::")):
+                        seen.add(c)
+                        work.append(c)
+    # backend_from_*: backend *selection* (traffic path, reached through the UDP session's generic output pump); what it
+    # mutates is the load-balancing cursor, not configuration.
+    NOT_CONFIG = ("::metrics::", "::soft_stop", "::hard_stop", "BackendMap::backend_from_")
+    for q in sorted(seen):
+        if "{closure" in q or any(x in q for x in NOT_CONFIG) or q in targets:
+            continue
+        qb = F.body(q)
+        if qb.derived or qb.argc < 1 or not qb.locals[1].startswith("&mut ") or not qb.locals[0].startswith("core::result::Result<"):
+            continue
+        targets.append(q)
+    rb.require(len(targets) >= 30, "only %d worker-side appliers found" % len(targets))
     run_family(F, rb, targets, set(), exc, "worker", xexc)
     chk.extra["C07_worker_methods"] = targets
     # ---------------- R-C07-c fan-out only after the master accepted ---------------
